@@ -724,6 +724,22 @@ func TestVerifC19RequestRoute(t *testing.T) {
 
 			q.PayAddr = true
 			q.DestFeat = 1
+
+			// Amounts a single channel cannot carry but a half or a
+			// quarter fits: the session has to split.
+			var big []uint64
+			for _, v := range c19TightAmounts(m, q.BW) {
+				if v >= uint64(DefaultShardMinAmt) {
+					big = append(big, v)
+				}
+			}
+			if len(big) > 0 && !c19Chance(t, "noSplitAmt", 50) {
+				v := big[rapid.IntRange(0, len(big)-1).Draw(
+					t, "splitBase")]
+				q.Amt = v*c19Pick(t, "splitMul", uint64(2), 4, 2) -
+					rapid.Uint64Range(0, 3).Draw(t, "splitOff")
+				pl.MaxAmt, pl.Total = q.Amt, q.Amt
+			}
 		}
 
 		res, f, ok := c19SessionCase(t, st, q, pl, "session")
